@@ -425,6 +425,8 @@ def optUnquote (pv : Str) : Except String Str := do
 def optStore (st : OptState) (pk pv : Str) : OptState :=
   match continuation? pk with
   | some base =>
+    -- `*0=value` has no key: skipped
+    if base.isEmpty then st else
     let old := (dictGet? st.options base).getD []
     { st with options := dictSet st.options base (old ++ pv) }
   | none => { st with options := dictSet st.options pk pv }
